@@ -264,6 +264,8 @@ impl<'a, T> AtomicArena<'a, T> {
     /// it calls `slice_for_slot_slow` to allocate it.
     #[inline]
     fn slice_for_slot(&self, a: usize) -> NonNull<MaybeUninit<T>> {
+        #[cfg(isographlabs_isograph_verif)]
+        crate::verif_hooks::point("arena.load_bucket", a);
         if let Some(curr) = NonNull::new(self.buckets[a as usize].load(Ordering::Acquire)) {
             curr
         } else {
@@ -279,9 +281,15 @@ impl<'a, T> AtomicArena<'a, T> {
         // needs to be allocated.  Double-checked locking is fine because the
         // buckets are `AtomicPtr` with the unlocked read and locked write
         // as an `Acquire / Release` pair.
+        #[cfg(isographlabs_isograph_verif)]
+        crate::verif_hooks::point("arena.lock_mutex", &self.bucket_alloc_mutex as *const _ as usize);
         let lock = self.bucket_alloc_mutex.lock();
         // Relaxed load because we know we're competing with prior lock holders now.
+        #[cfg(isographlabs_isograph_verif)]
+        crate::verif_hooks::point("arena.recheck_bucket", a);
         if let Some(curr) = NonNull::new(self.buckets[a as usize].load(Ordering::Relaxed)) {
+            #[cfg(isographlabs_isograph_verif)]
+            crate::verif_hooks::point("arena.unlock", &self.bucket_alloc_mutex as *const _ as usize);
             return curr;
         }
         let cap = bucket_capacity(a) as usize;
@@ -300,7 +308,11 @@ impl<'a, T> AtomicArena<'a, T> {
         memory_consistency_assert!(acap == cap || std::mem::size_of::<T>() == 0);
         memory_consistency_assert_eq!(len, 0);
         if let Some(nn_ptr) = NonNull::new(ptr) {
+            #[cfg(isographlabs_isograph_verif)]
+            crate::verif_hooks::point("arena.alloc_store", a);
             self.buckets[a as usize].store(ptr, Ordering::Release);
+            #[cfg(isographlabs_isograph_verif)]
+            crate::verif_hooks::point("arena.unlock", &self.bucket_alloc_mutex as *const _ as usize);
             drop(lock);
             nn_ptr
         } else {
@@ -311,6 +323,8 @@ impl<'a, T> AtomicArena<'a, T> {
     #[inline]
     /// Number of allocated objects in the arena as of the time of call.
     pub fn len(&self) -> usize {
+        #[cfg(isographlabs_isograph_verif)]
+        crate::verif_hooks::point("arena.len_load", 0);
         (self.next_biased_index.load(Ordering::Relaxed) - MIN_SIZE) as usize
     }
 
@@ -329,6 +343,8 @@ impl<'a, T> AtomicArena<'a, T> {
     pub fn add_get(&self, element: T) -> (Ref<'a, T>, &T) {
         // Atomically obtain an id, thus resolving conflicts among
         // concurrent add() operations.
+        #[cfg(isographlabs_isograph_verif)]
+        crate::verif_hooks::point("arena.fetch_add", 0);
         let s = self.next_biased_index.fetch_add(1, Ordering::Relaxed);
         // Linearization point for add().
         assert!(s >= MIN_SIZE); // Panic on wraparound ( == overflow).
@@ -345,6 +361,8 @@ impl<'a, T> AtomicArena<'a, T> {
         // entry before writing the new contents.  This can yield
         // a hard-to-debug segfault in the internals of malloc.
         let e_ptr: *mut MaybeUninit<T> = unsafe { e_ptr.add(b as usize) };
+        #[cfg(isographlabs_isograph_verif)]
+        crate::verif_hooks::point("arena.write_slot", s as usize);
         unsafe {
             *e_ptr = MaybeUninit::new(element);
         }
@@ -379,6 +397,8 @@ impl<'a, T> AtomicArena<'a, T> {
             debug_assert!(i < l, "{} < {}", i, l);
         }
         let (a, b) = index(i);
+        #[cfg(isographlabs_isograph_verif)]
+        crate::verif_hooks::point("arena.get_load_bucket", a);
         let e_ptr = unsafe {
             // Get bucket address, but do *not* allocate a bucket.
             // Ordering::Relaxed is OK because we got a Ref in a
@@ -400,6 +420,18 @@ impl<'a, T> AtomicArena<'a, T> {
 impl<'a, T> Debug for AtomicArena<'a, T> {
     fn fmt(&self, f: &mut fmt::Formatter<'_>) -> fmt::Result {
         write!(f, "AtomicArena[{}]", self.len())
+    }
+}
+
+#[cfg(isographlabs_isograph_verif)]
+impl<'a, T> AtomicArena<'a, T> {
+    /// Verification only: (next_biased_index, bucket indices whose pointer is non-null).
+    pub fn verif_snapshot(&self) -> (u32, Vec<usize>) {
+        let next = self.next_biased_index.load(Ordering::Relaxed);
+        let nonnull = (0..NUM_SIZES)
+            .filter(|a| !self.buckets[*a].load(Ordering::Relaxed).is_null())
+            .collect();
+        (next, nonnull)
     }
 }
 
